@@ -90,7 +90,7 @@ fn stress(threads: usize, ops: usize, seed: u64, nexpr: usize, ndocs: usize) -> 
                     if k < 8 {
                         order.push(jmespath::verif::next_ticket());
                     }
-                    let got = match rng.below(6) {
+                    let got = match rng.below(8) {
                         0 => {
                             // compile through the shared default runtime, then search
                             let x = jmespath::compile(names[e]).unwrap();
@@ -114,6 +114,24 @@ fn stress(threads: usize, ops: usize, seed: u64, nexpr: usize, ndocs: usize) -> 
                         3 if !local.is_empty() => {
                             let i = rng.below(local.len());
                             local.swap_remove(i);
+                            continue;
+                        }
+                        6 | 7 => {
+                            // churn: a (most likely) never-seen-before expression text whose tree and
+                            // result are known without any sequential pre-computation
+                            let i = rng.next() % 100_000_000;
+                            let text = format!("a.b | [@, `{}`, length('{}')]", i, "x".repeat((i % 7) as usize));
+                            let x = jmespath::compile(&text).unwrap();
+                            let fresh = jmespath::parse(&text).unwrap();
+                            done += 1;
+                            if x.as_ast() != &fresh && mismatches.len() < 5 {
+                                mismatches.push(json!({"expression": text, "thread": t, "problem": "compile returned a tree that is not the tree of this text", "got": format!("{:?}", x.as_ast())}));
+                            }
+                            let g = fp(&x.search(&inputs[0]));
+                            let want = format!("ok:[1,{},{}]", i, i % 7);
+                            if g != want && mismatches.len() < 5 {
+                                mismatches.push(json!({"expression": text, "thread": t, "sequential": want, "concurrent": g, "handle": "churn"}));
+                            }
                             continue;
                         }
                         _ => fp(&exprs[e].search(&inputs[d])),
